@@ -29,6 +29,8 @@ def unify(shapes):
 
 def pyshape(t, sigs):
     k = t[0]
+    if k.startswith("d_"):
+        return pyshape(expand(t, sigs), sigs)
     if k == "c":
         return (t[2], bool(t[3]))
     if k == "s":
@@ -68,12 +70,106 @@ def pyshape(t, sigs):
     raise ValueError(k)
 
 
+def _binpat(w, i):
+    return format(i & ((1 << w) - 1), "b").rjust(w, "0") if w > 0 else ""
+
+
+def _norm_index(length, i):
+    return max(0, i + length) if i < 0 else min(length, i)
+
+
+def expand(t, sigs):
+    """derived operators rewritten into core terms (mirror of hdl/_ast.py, used here only to compute shapes)"""
+    k = t[0]
+    if k == "d_abs":
+        e = t[1]
+        w, s = pyshape(e, sigs)
+        if not s:
+            return e
+        return ["sl", ["sw", ["o2", ">=", e, ["c", 0, 1, False]], [[["0"], ["o1", "-", e]], [None, e]]], 0, w]
+    if k == "d_shl":
+        e, n = t[1], t[2]
+        c = ["cat", [["c", 0, n, False], e]]
+        return ["o1", "s", c] if pyshape(e, sigs)[1] else c
+    if k == "d_shr":
+        e, n = t[1], t[2]
+        w, s = pyshape(e, sigs)
+        if s:
+            n2 = w - 1 if n >= w else n
+            return ["o1", "s", ["sl", e, min(w, n2), w]]
+        return ["sl", e, min(w, n), w]
+    if k == "d_rol":
+        e, n = t[1], t[2]
+        w = pyshape(e, sigs)[0]
+        a = n % w if w else n
+        kk = _norm_index(w, -a)
+        return ["cat", [["sl", e, kk, w], ["sl", e, 0, kk]]]
+    if k == "d_ror":
+        e, n = t[1], t[2]
+        w = pyshape(e, sigs)[0]
+        a = n % w if w else n
+        kk = _norm_index(w, a)
+        return ["cat", [["sl", e, kk, w], ["sl", e, 0, kk]]]
+    if k == "d_rep":
+        return ["cat", [t[1]] * t[2]]
+    if k == "d_match":
+        return ["c", 0, 1, False]          # shape unsigned(1) in every arm
+    if k == "d_idx":
+        e, i = t[1], t[2]
+        w = pyshape(e, sigs)[0]
+        i2 = i + w if i < 0 else i
+        return ["sl", e, i2, i2 + 1]
+    if k == "d_slice":
+        e, a, b = t[1], t[2], t[3]
+        w = pyshape(e, sigs)[0]
+        a2, b2 = _norm_index(w, a), _norm_index(w, b)
+        return ["sl", e, a2, b2]
+    if k == "d_step":
+        e, start, step, count = t[1], t[2], t[3], t[4]
+        return ["cat", [["sl", e, start + j * step, start + j * step + 1] for j in range(count)]]
+    if k == "d_mux":
+        sel, a, b = t[1], t[2], t[3]
+        return ["sw", sel, [[[_binpat(pyshape(sel, sigs)[0], 0)], b], [None, a]]]
+    if k == "d_array":
+        elems, idx = t[1], t[2]
+        w = max(0, pyshape(idx, sigs)[0])
+        return ["sw", idx, [[[_binpat(w, i)], x] for i, x in enumerate(elems) if i < (1 << w)]]
+    raise ValueError(k)
+
+
 def coq_pattern(p):
     return "[" + "; ".join({"0": "Some false", "1": "Some true", "-": "None"}[c] for c in p) + "]"
 
 
 def coq_expr(t, sigs):
     k = t[0]
+    if k.startswith("d_"):
+        ce = lambda x: coq_expr(x, sigs)
+        if k == "d_abs":
+            return f"(mk_abs {ce(t[1])})"
+        if k == "d_shl":
+            return f"(mk_shift_left {ce(t[1])} {z(t[2])})"
+        if k == "d_shr":
+            return f"(mk_shift_right {ce(t[1])} {z(t[2])})"
+        if k == "d_rol":
+            return f"(mk_rotate_left {ce(t[1])} {z(t[2])})"
+        if k == "d_ror":
+            return f"(mk_rotate_right {ce(t[1])} {z(t[2])})"
+        if k == "d_rep":
+            return f"(mk_replicate {ce(t[1])} {t[2]}%nat)"
+        if k == "d_match":
+            return f"(mk_matches {ce(t[1])} [" + "; ".join(coq_pattern(p) for p in t[2]) + "])"
+        if k == "d_idx":
+            return f"(mk_index {ce(t[1])} {z(t[2])})"
+        if k == "d_slice":
+            return f"(mk_slice {ce(t[1])} {z(t[2])} {z(t[3])})"
+        if k == "d_step":
+            return f"(mk_step_slice {ce(t[1])} {z(t[2])} {z(t[3])} {t[4]}%nat)"
+        if k == "d_mux":
+            return f"(mk_mux {ce(t[1])} {ce(t[2])} {ce(t[3])})"
+        if k == "d_array":
+            return "(mk_array [" + "; ".join(ce(x) for x in t[1]) + f"] {ce(t[2])})"
+        raise ValueError(k)
     if k == "c":
         return f"(EConst {z(t[1])} (Sh {z(t[2])} {blit(t[3])}))"
     if k == "s":
@@ -103,6 +199,35 @@ def build(t, sigobjs):
     from amaranth.hdl import Const, Shape, Cat
     from amaranth.hdl._ast import Slice, Part, SwitchValue
     k = t[0]
+    if k.startswith("d_"):
+        from amaranth.hdl import Mux, Array
+        b = lambda x: build(x, sigobjs)
+        if k == "d_abs":
+            return abs(b(t[1]))
+        if k == "d_shl":
+            return b(t[1]).shift_left(t[2])
+        if k == "d_shr":
+            return b(t[1]).shift_right(t[2])
+        if k == "d_rol":
+            return b(t[1]).rotate_left(t[2])
+        if k == "d_ror":
+            return b(t[1]).rotate_right(t[2])
+        if k == "d_rep":
+            return b(t[1]).replicate(t[2])
+        if k == "d_match":
+            return b(t[1]).matches(*t[3])        # t[3]: the patterns as written by the user; t[2]: normalised
+        if k == "d_idx":
+            return b(t[1])[t[2]]
+        if k == "d_slice":
+            return b(t[1])[t[2]:t[3]]
+        if k == "d_step":
+            return b(t[1])[slice(*t[5])]         # t[5]: the Python slice as [start, stop, step]
+        if k == "d_mux":
+            return Mux(b(t[1]), b(t[2]), b(t[3]))
+        if k == "d_array":
+            from amaranth.hdl import Value
+            return Value.cast(Array([b(x) for x in t[1]])[b(t[2])])
+        raise ValueError(k)
     if k == "c":
         return Const(t[1], Shape(t[2], bool(t[3])))
     if k == "s":
@@ -152,8 +277,67 @@ def rand_value(rng, w, sg):
 
 
 class Gen:
-    def __init__(self, rng, sigs, maxw=8, maxtotal=40, malformed=False):
+    def __init__(self, rng, sigs, maxw=8, maxtotal=40, malformed=False, derived=False):
         self.rng, self.sigs, self.maxw, self.maxtotal, self.malformed = rng, sigs, maxw, maxtotal, malformed
+        self.derived = derived
+
+    def derived_node(self, d):
+        r = self.rng
+        e = self.expr(d - 1)
+        w, sg = pyshape(e, self.sigs)
+        w = max(0, w)
+        c = r.randrange(12)
+        if c == 0:
+            return ["d_abs", e]
+        if c == 1:
+            return ["d_shl", e, r.randrange(0, 5)]
+        if c == 2:
+            return ["d_shr", e, r.randrange(0, w + 3)]
+        if c == 3:
+            return ["d_rol", e, r.randrange(-2 * w - 1, 2 * w + 2)]
+        if c == 4:
+            return ["d_ror", e, r.randrange(-2 * w - 1, 2 * w + 2)]
+        if c == 5:
+            return ["d_rep", e, r.randrange(0, 4)]
+        if c == 6:
+            if w > 4:
+                e = ["sl", e, 0, 4]
+                w, sg = 4, False
+            raw, norm = [], []
+            for _ in range(r.randrange(0, 3)):
+                if r.random() < 0.5:
+                    v = r.randrange(-(1 << w) - 1, (1 << w) + 2)
+                    raw.append(v)
+                    lo, hi = (-(1 << (w - 1)), 1 << (w - 1)) if sg else (0, 1 << w)
+                    if w == 0:
+                        lo, hi = 0, 1
+                    if lo <= v < hi:
+                        norm.append(_binpat(w, v))
+                else:
+                    p = "".join(r.choice("01-") for _ in range(w))
+                    raw.append(p if w < 2 or r.random() < 0.7 else p[:1] + " " + p[1:])
+                    norm.append(p)
+            return ["d_match", e, norm, raw]
+        if c == 7:
+            if w == 0:
+                return ["d_rep", e, 2]
+            i = r.randrange(-w, w)
+            if self.malformed and r.random() < 0.5:
+                i = r.choice((w, -w - 1))
+            return ["d_idx", e, i]
+        if c == 8:
+            return ["d_slice", e, r.randrange(-w - 2, w + 3), r.randrange(-w - 2, w + 3)]
+        if c == 9:
+            a, b = r.randrange(-w - 1, w + 2), r.randrange(-w - 1, w + 2)
+            st = r.choice((-3, -2, -1, 2, 3))
+            rg = range(*slice(a, b, st).indices(w))
+            return ["d_step", e, rg.start, rg.step, len(rg), [a, b, st]]
+        if c == 10:
+            return ["d_mux", self.expr(d - 1), e, self.expr(d - 1)]
+        idx = self.unsigned_small(d - 1, 2)
+        # every element reachable (ArrayProxy.as_value() drops unreachable ones without checking them)
+        n = min(r.randrange(1, 6), 1 << max(0, pyshape(idx, self.sigs)[0]))
+        return ["d_array", [e] + [self.expr(d - 1) for _ in range(n - 1)], idx]
 
     def leaf(self):
         r = self.rng
@@ -192,6 +376,8 @@ class Gen:
 
     def _node(self, d):
         r = self.rng
+        if self.derived and r.random() < 0.3:
+            return self.derived_node(d)
         c = r.random()
         if c < 0.2:
             op = r.choice(OP1)
@@ -266,6 +452,15 @@ def stimuli(rng, sigs, n):
 def sig_ids(t):
     """all signal indices occurring anywhere in the term"""
     k = t[0]
+    if k.startswith("d_"):
+        out = []
+        for x in t[1:]:
+            if isinstance(x, list) and x and isinstance(x[0], str) and (x[0] in ("c", "s", "o1", "o2", "sl", "pt", "cat", "sw") or x[0].startswith("d_")):
+                out += sig_ids(x)
+            elif k == "d_array" and isinstance(x, list) and x and isinstance(x[0], list):
+                for y in x:
+                    out += sig_ids(y)
+        return out
     if k == "c":
         return []
     if k == "s":
